@@ -58,6 +58,8 @@ CATALOGUE = {
     "polarrect": W("rect", 20, [[[0, 0]], [[10, 4], [10, 11]]]),
     "rect2site": W("rect", 4, [[[0, 0], [2, 1]]]),
     "squarelieb": W("square", 2, [[[0, 0]], [[1, 0], [0, 1]]]),
+    # second species on mirror lines (site symmetry m: polar vector basis), first species on the 4mm site (none)
+    "sqpolar": W("square", 10, [[[0, 0]], [[5, 2], [5, 8], [2, 5], [8, 5]]]),
     # 3D
     "sc": W("sc", 1, [[[0, 0, 0]]]),
     "fcc": W("fcc", 1, [[[0, 0, 0]]]),
@@ -155,7 +157,7 @@ def iround(x, tol=1e-6, what="value"):
     return r.astype(int)
 
 
-def observe(crys, unit, Dhint=1, maxmult=48):
+def observe(crys, unit, Dhint=1, maxmult=48, postol=0.0):
     """Read the crystal back as an integer world (the one every trace is validated against)."""
     # a cell reduced from a non-primitive description has a metric that is a fraction (denominator = square
     # of the reduction index) of the description's unit: find the smallest integer multiple that is integral
@@ -171,7 +173,8 @@ def observe(crys, unit, Dhint=1, maxmult=48):
     D = None
     for mult in range(1, maxmult + 1):
         Dc = Dhint * mult
-        ok = all(np.max(np.abs(u * Dc - np.round(u * Dc))) < 1e-6 for sp in crys.basis for u in sp)
+        # postol: positional noise (fractional units) of a deliberately noisy description
+        ok = all(np.max(np.abs(u * Dc - np.round(u * Dc))) < 1e-6 + postol * Dc for sp in crys.basis for u in sp)
         if ok:
             D = Dc
             break
